@@ -8,6 +8,7 @@ package interp
 // external or because they use "unsafe" or "reflect" operations.
 
 import (
+	"go/types"
 	"bytes"
 	"math"
 	"os"
@@ -128,14 +129,23 @@ func ext۰bytes۰IndexByte(fr *frame, args []value) value {
 }
 
 func ext۰math۰Float64frombits(fr *frame, args []value) value {
+	if sx, ok := args[0].(sym); ok {
+		return sym{types.Float64, sx.t}
+	}
 	return math.Float64frombits(args[0].(uint64))
 }
 
 func ext۰math۰Float64bits(fr *frame, args []value) value {
+	if sx, ok := args[0].(sym); ok {
+		return sym{types.Uint64, sx.t}
+	}
 	return math.Float64bits(args[0].(float64))
 }
 
 func ext۰math۰Float32frombits(fr *frame, args []value) value {
+	if sx, ok := args[0].(sym); ok {
+		return sym{types.Float32, sx.t}
+	}
 	return math.Float32frombits(args[0].(uint32))
 }
 
@@ -152,6 +162,9 @@ func ext۰math۰Exp(fr *frame, args []value) value {
 }
 
 func ext۰math۰Float32bits(fr *frame, args []value) value {
+	if sx, ok := args[0].(sym); ok {
+		return sym{types.Uint32, sx.t}
+	}
 	return math.Float32bits(args[0].(float32))
 }
 
@@ -164,6 +177,9 @@ func ext۰math۰NaN(fr *frame, args []value) value {
 }
 
 func ext۰math۰IsNaN(fr *frame, args []value) value {
+	if sx, ok := args[0].(sym); ok {
+		return fromTerm(types.Bool, tNot(tOp("fp.eq", 0, 64, sx.t, sx.t)))
+	}
 	return math.IsNaN(args[0].(float64))
 }
 
